@@ -125,8 +125,9 @@ def parseDep? (s : String) : Option Dep :=
 
 def nullOp : OutPoint := ⟨0, 0xFFFFFFFF⟩
 
-def mkRefs (ins : List OutPoint) (deps : List Dep) (hd : List Nat) : TxRefs :=
-  ⟨ins, decide (ins = [nullOp]), deps, hd⟩
+/-- `is_cellbase()`: one input, one witness, the input's previous output is null -/
+def mkRefs (ins : List OutPoint) (deps : List Dep) (hd : List Nat) (nwit : Nat) : TxRefs :=
+  ⟨ins, decide (ins = [nullOp]) && nwit == 1, deps, hd⟩
 
 def stepResolve (s : ResSt) (ts : List String) : ResSt × String :=
   match ts with
@@ -151,16 +152,16 @@ def stepResolve (s : ResSt) (ts : List String) : ResSt × String :=
     match (splitList l).mapM parseOp? with
     | some l => ({ s with seen := l }, "ok")
     | none => (s, "bad-op")
-  | ["tx", ins, deps, hd] =>
-    match (splitList ins).mapM parseOp?, (splitList deps).mapM parseDep?, parseNatList? hd with
-    | some ins, some deps, some hd =>
+  | ["tx", ins, deps, hd, nw] =>
+    match (splitList ins).mapM parseOp?, (splitList deps).mapM parseDep?, parseNatList? hd, parseNat? nw with
+    | some ins, some deps, some hd, some nw =>
       let p := overlay (tableProvider s.a) (tableProvider s.b)
-      match resolveTx s.seen p (fun h => s.hdrs.contains h) (mkRefs ins deps hd) with
+      match resolveTx s.seen p (fun h => s.hdrs.contains h) (mkRefs ins deps hd nw) with
       | .error e => (s, showRErr e)
       | .ok (r, seen') =>
         ({ s with seen := seen' },
           s!"ok in={showOps r.inputs} cd={showOps r.cellDeps} gr={showOps r.depGroups} seen={seen'.length}")
-    | _, _, _ => (s, "bad-op")
+    | _, _, _, _ => (s, "bad-op")
   | _ => (s, "bad-op")
 
 /-! ### `cap` -/
